@@ -66,7 +66,7 @@ Lemma xreply_ok_er ss1 : forall ss2, map er ss1 = map er ss2 ->
 Proof.
   induction ss1 as [|a ss1 IH]; intros [|b ss2] H; cbn [map] in H; try discriminate H;
     [|apply er_cons_inv in H as [Ha Ht]; destruct a as [sa|], b as [sb|]; try contradiction; [destruct Ha as (Hn & Hty & Hc)|]]; intros slot nm r; cbn [xreply_ok]; [reflexivity| |apply IH; exact Ht].
-  rewrite Hn. destruct (ci_eq nm (s_name sb)); [reflexivity|apply IH; exact Ht].
+  rewrite Hn, Hc. destruct (s_conf sb && ci_eq nm (s_name sb)); [reflexivity|apply IH; exact Ht].
 Qed.
 
 Lemma classify_er ss1 ss2 rs r : map er ss1 = map er ss2 -> classify ss1 rs r = classify ss2 rs r.
